@@ -263,6 +263,7 @@ type vfC10Env struct {
 	admCook  *http.Cookie
 	roleCA    *x509.Certificate
 	credLeafs map[string]*x509.Certificate
+	kinds     *vfKinds // round 5: one genuine token of every kind the daemon mints (zz_verif_c10kinds_test.go)
 }
 
 func vfC10Setup(t *testing.T) (*vfC10Env, func()) {
@@ -780,6 +781,8 @@ func (env *vfC10Env) extAll(value []byte, addr string, caCert *x509.Certificate,
 //	    -> desc=<what the standard parser makes of the submitted bytes> [re=0|1] status=<code|PANIC> samekey=<1|0|->
 //	tok <cookie|code|access> <raw|signed> <hex>   -> status=<code|PANIC>
 //	extall <hexDER|control> <hexaddr>         certificate with that address extension to every registered route
+//	tokslot <kind|control> <variant> <slot>   a genuine token of that kind (or a one-claim variant of it) in that
+//	    credential slot (cookie | bearer | form) of every registered route -> n=… panics=… st=<status:count,…>
 func TestVerifC10(t *testing.T) {
 	io := vfOpen(t)
 	defer io.close()
@@ -840,6 +843,8 @@ func TestVerifC10(t *testing.T) {
 				continue
 			}
 			io.emit("%s", env.extAll(value, addr, extCA, extPub, extB64))
+		case len(f) == 4 && f[0] == "tokslot":
+			io.emit("%s", env.tokSlotOp(f[1], f[2], f[3], extB64))
 		case len(f) == 4 && f[0] == "tok":
 			arg, ok := vfUnhex(f[3])
 			if !ok {
